@@ -236,9 +236,14 @@ pub fn check_archive(spec: &Spec, bytes: &[u8], lay: &Layout, st: &mut Stats, or
     }
     // lookups
     if let Ok(mut ar) = zip::ZipArchive::new(Cursor::new(bytes)) {
+        // last position (in central-directory order) of every decoded name
+        let mut last_of: std::collections::HashMap<String, usize> = Default::default();
+        for (pos, &x) in order_idx.iter().enumerate() {
+            last_of.insert(decode_name(&spec.entries[x].name, spec.entries[x].utf8), pos);
+        }
         for &ei in &order_idx {
             let n = decode_name(&spec.entries[ei].name, spec.entries[ei].utf8);
-            let last = order_idx.iter().rposition(|&x| decode_name(&spec.entries[x].name, spec.entries[x].utf8) == n).unwrap();
+            let last = last_of[&n];
             match guard(|| ar.by_name(&n).map(|f| f.central_header_start())) {
                 Ok(Ok(c)) => {
                     if c != lay.entries[order_idx[last]].central_pos {
@@ -325,7 +330,7 @@ pub fn run(args: &Args) -> i32 {
         and gaps. Second producer: CPython zipfile (stored/deflate/bzip2/lzma x force_zip64 x comments x directories). distinct_nontrivial = distinct archive byte strings (hash set)."
         .into();
     ctx.assume("reference::zipbuild knows what it encoded (its Layout table is the oracle); CPython's manifest is ground truth for its archives");
-    ctx.uncovered("multi-disk archives, encrypted central directory, more than 3 entries except via CPython");
+    ctx.uncovered("multi-disk archives, encrypted central directory, more than 3 distinct entry shapes per archive");
 
     let av = avars(thorough);
     let total: u64 = RAD.iter().product();
@@ -426,6 +431,23 @@ pub fn run(args: &Args) -> i32 {
         }
         ctx.stats.merge(st);
         ctx.bound("big_fields", json!("65 535-byte name / file comment / central extra / local extra (singly and together); 300 entries; 300 entries with 7 repeated names in reversed directory order"));
+    }
+    // entry counts around the 16-bit limit: 65 535 entries need no ZIP64 records (the count field holds 0xFFFF as a real value)
+    {
+        let counts = [65_534usize, 65_535, 65_536, 65_537];
+        let s = par_for(counts.len() as u64 * 4, 1, |t, st| {
+            let n = counts[(t / 4) as usize];
+            let spec = Spec {
+                entries: (0..n).map(|i| ESpec { name: format!("c{i}").into_bytes(), method: 0, content: vec![b'a' + (i % 26) as u8], ..Default::default() }).collect(),
+                comment: if t % 2 == 1 { b"count".to_vec() } else { vec![] },
+                prefix: if (t / 2) % 2 == 1 { vec![0x5a; 100] } else { vec![] },
+                ..Default::default()
+            };
+            let (bytes, lay) = build(&spec);
+            check_archive(&spec, &bytes, &lay, st, (7 << 40) + t, "entry-counts");
+        });
+        ctx.stats.merge(s);
+        ctx.bound("entry_counts", json!("{65534, 65535, 65536, 65537} one-byte entries x comment {none, 5 bytes} x prefix {0, 100}"));
     }
     // zero entries
     let mut st0 = Stats::default();
